@@ -6,11 +6,64 @@ from . import c02
 LIMIT = 100000
 
 
-class Watchdog(Exception):
+class Watchdog(BaseException):
     pass
 
 
+def check_proc(case):
+    """process / curve level: a finite number of steps makes a bounded number of flux-solver calls, each of them bounded"""
+    import signal
+    from pyvaporation.pervaporation import Pervaporation
+    from . import procs
+    pv, mix, mem, dcs, cond, func, kw = procs.build(case)
+    N = kw['number_of_steps']
+    real_cpf = Pervaporation.calculate_partial_fluxes
+    real_gpf = Pervaporation.get_partial_fluxes_from_permeate_composition
+    n = [0, 0]
+    def cpf(self, *a, **k):
+        n[0] += 1
+        if n[0] > 50 * N + 100: raise Watchdog("calculate_partial_fluxes")
+        return real_cpf(self, *a, **k)
+    def gpf(self, *a, **k):
+        n[1] += 1
+        if n[1] > LIMIT * (N + 2): raise Watchdog("get_partial_fluxes_from_permeate_composition")
+        return real_gpf(self, *a, **k)
+    Pervaporation.calculate_partial_fluxes = cpf
+    Pervaporation.get_partial_fluxes_from_permeate_composition = gpf
+    try:
+        try:
+            signal.alarm(60)
+            getattr(pv, func)(**kw)
+        except Watchdog as w:
+            return ["%s with number_of_steps=%d called %s more than %d times without returning or raising" % (func, N, w, n[0] if 'calculate' in str(w) else n[1])]
+        except TimeoutError:
+            return ["%s with number_of_steps=%d neither returned nor raised within 60 s" % (func, N)]
+        except Exception:
+            pass
+    finally:
+        Pervaporation.calculate_partial_fluxes = real_cpf
+        Pervaporation.get_partial_fluxes_from_permeate_composition = real_gpf
+    return []
+
+
+def proc_corpus(seed, n):
+    """process runs that drive the flux solver into its error exits: both permeate parameters given, a permeate pressure the
+    feed runs down to, a permeate temperature just below the feed temperature"""
+    from . import procs
+    rng = random.Random(seed + 17); out = []
+    base = procs.corpus(seed, n)
+    for i, c in enumerate(base):
+        c = dict(c)
+        k = i % 4
+        if k == 0: c.update(mode='both', Tp=rng.uniform(250, 290), pp=rng.uniform(0.1, 2.0))
+        elif k == 1: c.update(mode='pressure', pp=rng.uniform(2.0, 15.0), N=rng.randint(10, 40), dt=10 ** rng.uniform(-1, 0), A=10 ** rng.uniform(-1, 0.5), m0=10 ** rng.uniform(-1, 0.5))
+        elif k == 2: c.update(mode='temperature', Tp=c['T0'] - rng.uniform(0.2, 6.0), N=rng.randint(5, 20))
+        out.append(dict(proc=c))
+    return out
+
+
 def check(case):
+    if 'proc' in case: return check_proc(case['proc'])
     from pyvaporation.pervaporation import Pervaporation
     pv, mix, feed, T, P1, P2, prec, Tp, pp, model = c02.setup(case)
     real = Pervaporation.get_partial_fluxes_from_permeate_composition
